@@ -48,6 +48,9 @@ CONSTANTS Keys,      \* key names
           ByteIdxS,  \* byte indices (start / end) of BitCount / BitPos
           HE,        \* elements added to HyperLogLogs
           CountS,    \* COUNT hints of the scan family
+          ShapeS,    \* argument shapes offered for the variadic (...any) methods, a subset of Shapes
+          ZeroElems, \* TRUE: LPush / RPush / SAdd / SRem / ZRem are also offered without any element
+          PadS,      \* numbers of trailing ARGV elements that the script does not read, offered to Eval / EvalSha
           TextBytes, \* [text -> its bytes], the ASCII encoding of every text a string key can hold (VS and -R..R)
           Scripts    \* [script name -> [src |-> Lua source, sha |-> its SHA-1 in hex]] for the names in ScriptNames
 
@@ -134,6 +137,7 @@ NilErr == [err |-> "nil", v |-> 0]
 WT     == [err |-> "wrongtype", v |-> 0]
 NotInt == [err |-> "notint", v |-> 0]
 NoScript == [err |-> "noscript", v |-> 0]
+Arity  == [err |-> "arity", v |-> 0]
 
 Res(k2, e2, r) == [ks |-> k2, exp |-> e2, r |-> r]
 Same(r) == Res(ks, exp, r)
@@ -171,6 +175,33 @@ InScore(z, lo, hi) == {i \in 1..Cardinality(Scored(z)) : lo <= z[ZAsc(z)[i]] /\ 
 Without(z, ms) == [m \in Members |-> IF m \in ms THEN NoScore ELSE z[m]]
 \* page*size offset, size elements (size >= 1)
 Page(s, page, size) == Pick(s, {i \in 1..Len(s) : page * size < i /\ i <= page * size + size})
+
+(* ----------------------------------------------------------- argument shapes *)
+\* LPush RPush SAdd SRem ZRem PFAdd Eval EvalSha (wrapper and kv.Store alike) take their trailing arguments as
+\* `...any` and hand them to the go-redis command of the same name.  go-redis (appendArgs) sends a call with
+\* exactly ONE trailing argument that is a []string, a []interface{}, a map[string]string or a
+\* map[string]interface{} as the call with the elements (of a map: key, value) spread out; every other call
+\* sends its arguments one by one.  How the caller hands over the elements is therefore no part of a command's
+\* meaning: the field c.sh of a command says how the driver has to call the method, no step function reads it.
+\*   "flat"  every element an argument of its own        (0 = no trailing argument, 1 = one scalar, 2 = several)
+\*   "strs"  ONE argument, a []string of the elements    (any number, also the empty slice)
+\*   "anys"  ONE argument, a []any of the elements       (any number, also the empty slice)
+\*   "smap" / "amap"  ONE argument, a map[string]string / map[string]any with the single entry
+\*           first element -> second element             (exactly 2 elements)
+Shapes == {"flat", "strs", "anys", "smap", "amap"}
+ASSUME ShapeS \subseteq Shapes
+ShapeFits(sh, n) == sh \in {"smap", "amap"} => n = 2
+\* the commands of C, each in every offered shape that fits its number of variadic elements
+WithShape(C, n(_)) == UNION {{c @@ [sh |-> s] : s \in {x \in ShapeS : ShapeFits(x, n(c))}} : c \in C}
+
+\* A command whose variadic part is empty reaches the server without a mandatory argument; Redis answers
+\* "wrong number of arguments" before it looks at the key.  (Offered if ZeroElems.)
+NoElems == IF ZeroElems THEN {<<>>} ELSE {}
+NeedsAnElement == {"lpush", "rpush", "sadd", "srem", "zrem"}
+NoElements(c) ==
+  CASE c.op \in {"lpush", "rpush"} -> c.vs = <<>>
+    [] c.op \in {"sadd", "srem", "zrem"} -> c.ms = <<>>
+    [] OTHER -> FALSE
 
 (* ----------------------------------------------------------- the step function *)
 StrStep(c) ==
@@ -381,6 +412,9 @@ HllStep(c) ==
 \* text ("OK"), Lua false (GET of an absent key) -> nil reply -> the error redis.Nil; an error raised by
 \* redis.call fails the script with an error that names the cause (WRONGTYPE / not an integer).
 \* EVALSHA of a script that the server does not have cached: NOSCRIPT.  EVAL and SCRIPT LOAD cache the script.
+\* ARGV is c.v / c.n (sset / sincr) followed by c.extra elements "pad" that no script reads; c.sh is the shape
+\* in which the caller hands ARGV over (see "argument shapes").
+ScriptArgc(c) == (IF c.s = "sget" THEN 0 ELSE 1) + c.extra
 ScriptInner(c) ==
   CASE c.s = "sget" -> [op |-> "get", k |-> c.k]
     [] c.s = "sset" -> [op |-> "set", k |-> c.k, v |-> c.v]
@@ -429,6 +463,7 @@ ZOps    == {"zadd", "zadds", "zscore", "zincrby", "zcard", "zcount", "zrank", "z
             "zrevrangebyscorelimit", "zremrangebyscore", "zremrangebyrank", "zunionstore"}
 
 Step(c) ==
+  IF c.op \in NeedsAnElement /\ NoElements(c) THEN Same(Arity) ELSE
   CASE c.op \in StrOps -> StrStep(c)
     [] c.op \in KeyOps -> KeyStep(c)
     [] c.op \in HashOps -> HashStep(c)
@@ -467,6 +502,11 @@ ReadsAsString(c) ==     \* the keys whose value command c reads as a string
 \* which a PFCOUNT empties - so after a PFCOUNT a PFADD of known elements answers 1.  The model follows Redis;
 \* PFADD of nothing but known elements to a key that has been counted is not offered.
 MiniredisPfaddReportsKnownElementsAfterCount == TRUE
+
+\* Named deviation of the environment: Redis accepts PFADD key without an element (it creates an empty
+\* HyperLogLog); miniredis 2.23.1 answers "wrong number of arguments".  PFADD without an element is not offered
+\* (ESeqs has no empty sequence).
+MiniredisPfaddNeedsAnElement == TRUE
 
 \* Named deviation of the environment: Redis caches the script of an EVAL as soon as it compiles, miniredis
 \* 2.23.1 only when the run did not raise an error.  The model follows Redis (cache state "evalfail" = known to
@@ -604,13 +644,15 @@ Cmds(fam) ==
          \cup {[op |-> o, k |-> k] : o \in {"hgetall", "hkeys", "hvals", "hlen"}, k \in Keys}
          \cup {[op |-> "hincrby", k |-> k, f |-> f, n |-> n] : k \in Keys, f \in Members, n \in NS}
     [] fam = "list" ->
-         {[op |-> o, k |-> k, vs |-> vs] : o \in {"lpush", "rpush"}, k \in Keys, vs \in VSeqs}
+         WithShape({[op |-> o, k |-> k, vs |-> vs] : o \in {"lpush", "rpush"}, k \in Keys, vs \in VSeqs \cup NoElems},
+                   LAMBDA c : Len(c.vs))
          \cup {[op |-> o, k |-> k] : o \in {"lpop", "rpop", "llen"}, k \in Keys}
          \cup {[op |-> "lindex", k |-> k, i |-> i] : k \in Keys, i \in IdxS}
          \cup {[op |-> o, k |-> k, start |-> a, stop |-> b] : o \in {"lrange", "ltrim"}, k \in Keys, a \in IdxS, b \in IdxS}
          \cup {[op |-> "lrem", k |-> k, cnt |-> n, v |-> v] : k \in Keys, n \in {0 - 1, 0, 1, 2}, v \in VS}
     [] fam = "set" ->
-         {[op |-> o, k |-> k, ms |-> ms] : o \in {"sadd", "srem"}, k \in Keys, ms \in MSeqs}
+         WithShape({[op |-> o, k |-> k, ms |-> ms] : o \in {"sadd", "srem"}, k \in Keys, ms \in MSeqs \cup NoElems},
+                   LAMBDA c : Len(c.ms))
          \cup {[op |-> o, k |-> k] : o \in {"scard", "smembers"}, k \in Keys}
          \cup {[op |-> "sismember", k |-> k, m |-> m] : k \in Keys, m \in Members}
          \cup {[op |-> o, ks |-> kk] : o \in {"sunion", "sinter", "sdiff"}, kk \in KSeqs}
@@ -626,7 +668,7 @@ Cmds(fam) ==
          \cup {[op |-> o, k |-> k, lo |-> a, hi |-> b, page |-> p, size |-> sz] :
                   o \in {"zrangebyscorelimit", "zrevrangebyscorelimit"}, k \in Keys, a \in ScoreS, b \in ScoreS,
                   p \in PageS, sz \in SizeS}
-         \cup {[op |-> "zrem", k |-> k, ms |-> ms] : k \in Keys, ms \in MSeqs}
+         \cup WithShape({[op |-> "zrem", k |-> k, ms |-> ms] : k \in Keys, ms \in MSeqs \cup NoElems}, LAMBDA c : Len(c.ms))
          \cup {[op |-> o, k |-> k, start |-> a, stop |-> b] :
                   o \in {"zrange", "zrevrange", "zrangews", "zrevrangews", "zremrangebyrank"}, k \in Keys, a \in IdxS, b \in IdxS}
          \cup {[op |-> "zunionstore", dst |-> d, ks |-> kk] : d \in Keys, kk \in KSeqs}
@@ -638,16 +680,18 @@ Cmds(fam) ==
          \cup {[op |-> o, dst |-> d, ks |-> kk] : o \in {"bitopand", "bitopor", "bitopxor"}, d \in Keys, kk \in KSeqs}
          \cup {[op |-> "bitopnot", dst |-> d, ks |-> <<k>>] : d \in Keys, k \in Keys}
     [] fam = "hll" ->
-         {[op |-> "pfadd", k |-> k, es |-> es] : k \in Keys, es \in ESeqs}
+         WithShape({[op |-> "pfadd", k |-> k, es |-> es] : k \in Keys, es \in ESeqs}, LAMBDA c : Len(c.es))
          \cup {[op |-> "pfcount", k |-> k] : k \in Keys}
          \cup {[op |-> "pfmerge", dst |-> d, ks |-> kk] : d \in Keys, kk \in KSeqs}
     [] fam = "script" ->
-         {[op |-> o, s |-> "sget", src |-> Scripts["sget"].src, sha |-> Scripts["sget"].sha, k |-> k] :
-              o \in {"eval", "evalsha"}, k \in Keys}
-         \cup {[op |-> o, s |-> "sset", src |-> Scripts["sset"].src, sha |-> Scripts["sset"].sha, k |-> k, v |-> v] :
-              o \in {"eval", "evalsha"}, k \in Keys, v \in VS}
-         \cup {[op |-> o, s |-> "sincr", src |-> Scripts["sincr"].src, sha |-> Scripts["sincr"].sha, k |-> k, n |-> n] :
-              o \in {"eval", "evalsha"}, k \in Keys, n \in NS}
+         WithShape(
+           {[op |-> o, s |-> "sget", src |-> Scripts["sget"].src, sha |-> Scripts["sget"].sha, k |-> k, extra |-> x] :
+                o \in {"eval", "evalsha"}, k \in Keys, x \in PadS}
+           \cup {[op |-> o, s |-> "sset", src |-> Scripts["sset"].src, sha |-> Scripts["sset"].sha, k |-> k, v |-> v, extra |-> x] :
+                o \in {"eval", "evalsha"}, k \in Keys, v \in VS, x \in PadS}
+           \cup {[op |-> o, s |-> "sincr", src |-> Scripts["sincr"].src, sha |-> Scripts["sincr"].sha, k |-> k, n |-> n, extra |-> x] :
+                o \in {"eval", "evalsha"}, k \in Keys, n \in NS, x \in PadS},
+           ScriptArgc)
          \cup {[op |-> "scriptload", s |-> n, src |-> Scripts[n].src] : n \in ScriptNames}
     [] fam = "scan" ->
          {[op |-> "scanall", match |-> p, cnt |-> n] : p \in {""} \cup Keys, n \in CountS}
